@@ -275,6 +275,38 @@ Section Recorded.
   Qed.
 End Recorded.
 
+(** ** freeform coefficient arrays: a write at (i, j) - inside the stored array or outside it in the row direction, the
+    column direction or both - returns the written value at (i, j) and leaves EVERY other coefficient, stored or not
+    (zero), at its own (a, b): growth is padding with zeros, never a re-ordering *)
+Section Coeff2.
+  Context {O : Ops}.
+  Lemma nth_nil {A} (d : A) k : nth k [] d = d.
+  Proof. destruct k; reflexivity. Qed.
+  Lemma nth_upd_pad {A} (d : A) (f : A -> A) : forall n l a,
+      nth a (upd_pad d l n f) d = if Nat.eqb a n then f (nth n l d) else nth a l d.
+  Proof.
+    induction n as [|n IH]; intros l a; destruct l as [|x l]; destruct a as [|a]; simpl; try reflexivity.
+    - destruct a; reflexivity.
+    - rewrite IH. rewrite !nth_nil. reflexivity.
+    - rewrite IH. reflexivity.
+  Qed.
+  Theorem cget2_cset2 : forall (c : list (list (T O))) i j v a b,
+      cget2 (cset2 c i j v) a b = if Nat.eqb a i && Nat.eqb b j then v else cget2 c a b.
+  Proof.
+    intros c i j v a b. unfold cget2, cset2. rewrite nth_upd_pad.
+    destruct (Nat.eqb a i) eqn:Ea; simpl; [|reflexivity].
+    apply Nat.eqb_eq in Ea. subst a. rewrite nth_upd_pad. destruct (Nat.eqb b j); reflexivity.
+  Qed.
+  (** reading never changes a coefficient, and a write of the value already there is invisible to every read
+      (a perturbation equal to the nominal value, a reset) *)
+  Corollary cset2_same_value : forall (c : list (list (T O))) i j a b,
+      cget2 (cset2 c i j (cget2 c i j)) a b = cget2 c a b.
+  Proof.
+    intros. rewrite cget2_cset2. destruct (Nat.eqb a i) eqn:Ea; destruct (Nat.eqb b j) eqn:Eb; simpl; try reflexivity.
+    apply Nat.eqb_eq in Ea, Eb. subst. reflexivity.
+  Qed.
+End Coeff2.
+
 (** ** seeded samplers: the run does not depend on the previous state of the global stream *)
 Section Seeded.
   Context {O : Ops}.
